@@ -142,6 +142,102 @@ theorem execAbs_spec {sortFn : List Ev → List Ev} (hf : IsSort sortFn) {n : Na
       · intro _
         simp only [hfo]
 
+/-! ### region_in_place -/
+
+/-- clock of the last event of `l` (`c` if there is none) -/
+def endClock (c : Nat) : List Ev → Nat
+  | [] => c
+  | e :: l => endClock e.clock l
+
+theorem endClock_append (c : Nat) (a b : List Ev) : endClock c (a ++ b) = endClock (endClock c a) b := by
+  induction a generalizing c with
+  | nil => rfl
+  | cons x t ih => exact ih x.clock
+
+theorem endClock_snoc (c : Nat) (l : List Ev) (e : Ev) : endClock c (l ++ [e]) = e.clock := by
+  rw [endClock_append]; rfl
+
+theorem endClock_ne_nil {l : List Ev} (h : l ≠ []) (c c' : Nat) : endClock c l = endClock c' l := by
+  cases l with
+  | nil => exact absurd rfl h
+  | cons x t => rfl
+
+theorem endClock_drop {l : List Ev} {j : Nat} (h : j < l.length) (c c' : Nat) :
+    endClock c (l.drop j) = endClock c' l := by
+  conv => rhs; rw [← List.take_append_drop j l, endClock_append]
+  apply endClock_ne_nil
+  intro h0
+  have := congrArg List.length h0
+  rw [List.length_drop] at this
+  simp at this; omega
+
+theorem chainOk_snoc (c : Nat) (l : List Ev) (e : Ev) :
+    chainOk c (l ++ [e]) = (chainOk c l && decide (endClock c l ≤ e.clock)) := by
+  induction l generalizing c with
+  | nil =>
+    simp only [List.nil_append, chainOk, endClock, Bool.true_and]
+    by_cases h : e.clock < c
+    · have : ¬ (c ≤ e.clock) := by omega
+      simp [h, this]
+    · have : c ≤ e.clock := by omega
+      simp [h, this]
+  | cons x t ih =>
+    simp only [List.cons_append, chainOk, endClock]
+    split
+    · rfl
+    · exact ih x.clock
+
+theorem regionInPlace_eq (buf : List Ev) (opn : Nat) :
+    regionInPlace buf opn = chainOk (clockAt buf opn) (buf.drop opn) := inPlaceLoop_eq _ _
+
+/-- right after the `OU[` marker the region is (trivially) in place -/
+theorem regionInPlace_single {l : List Ev} {opn : Nat} (h : opn + 1 = l.length) : regionInPlace l opn = true := by
+  have hlt : opn < l.length := by omega
+  rw [regionInPlace_eq, List.drop_eq_getElem_cons hlt, clockAt_eq hlt,
+    List.drop_of_length_le (by omega)]
+  simp [chainOk]
+
+theorem regionInPlace_snoc {l : List Ev} {opn : Nat} (e : Ev) (h : opn < l.length) :
+    regionInPlace (l ++ [e]) opn = (regionInPlace l opn && decide (endClock 0 l ≤ e.clock)) := by
+  rw [regionInPlace_eq, regionInPlace_eq]
+  have h1 : clockAt (l ++ [e]) opn = clockAt l opn := by
+    rw [clockAt_eq (by rw [List.length_append]; omega), clockAt_eq h, List.getElem_append_left h]
+  rw [h1, List.drop_append_of_le_length (by omega), chainOk_snoc, endClock_drop h _ 0]
+
+/-- a sorted prefix up to the marker followed by a region in place is sorted -/
+theorem sorted_of_inPlace {l : List Ev} {opn : Nat} (h : opn < l.length) (hs : Sorted (l.take (opn + 1)))
+    (hip : regionInPlace l opn = true) : Sorted l := by
+  rw [regionInPlace_eq, clockAt_eq h] at hip
+  obtain ⟨h1, h2⟩ := chainOk_sorted hip
+  rw [List.take_succ_eq_append_getElem h] at hs
+  unfold Sorted at hs ⊢
+  rw [List.pairwise_append] at hs
+  rw [← List.take_append_drop opn l, List.pairwise_append]
+  refine ⟨hs.1, h1, fun a ha b hb => ?_⟩
+  have := hs.2.2 a ha _ (List.mem_singleton.2 rfl)
+  have := h2 b hb
+  omega
+
+theorem inPlace_of_sorted {l : List Ev} {opn : Nat} (h : opn < l.length) (hs : Sorted l) :
+    regionInPlace l opn = true := by
+  rw [regionInPlace_eq, clockAt_eq h]
+  have hd : Sorted (l.drop opn) := List.Pairwise.sublist (List.drop_sublist _ _) hs
+  apply chainOk_of_sorted hd
+  intro x hx
+  rw [List.drop_eq_getElem_cons h] at hx hd
+  rcases List.mem_cons.1 hx with rfl | hx
+  · exact Nat.le_refl _
+  · exact (List.pairwise_cons.1 hd).1 x hx
+
+/-- `execute_sort_plan` on a region in place: nothing happens -/
+theorem exec_inPlace {sortFn : List Ev → List Ev} {buf : List Ev} {r : Ring} {opn bad0 : Nat}
+    (h : regionInPlace buf opn = true) : executeSortPlan sortFn buf r opn bad0 = (Status.ok, buf, r, none) := by
+  unfold executeSortPlan; rw [if_pos h]
+
+theorem exec_notInPlace {sortFn : List Ev → List Ev} {buf : List Ev} {r : Ring} {opn bad0 : Nat}
+    (h : regionInPlace buf opn = false) : executeSortPlan sortFn buf r opn bad0 = sortRegion sortFn buf r bad0 := by
+  unfold executeSortPlan; rw [if_neg (by rw [h]; exact Bool.false_ne_true)]
+
 /-! ### the loop invariant -/
 
 structure Inv (n : Nat) (s : WS) (pre : List Ev) : Prop where
@@ -182,10 +278,10 @@ def addEv (s : WS) (k : Nat) (e : Ev) : WS :=
 
 /-- the state after a successful `execute_sort_plan` -/
 def sortedState (s : WS) (buf' : List Ev) (r' : Ring) (p : Option (Nat × Nat)) : WS :=
-  { s with done := buf', ring := r', st := St.S, bad0 := 0, plans := s.plans ++ p.toList }
+  { s with done := buf', ring := r', st := St.S, opn := 0, bad0 := 0, plans := s.plans ++ p.toList }
 
 theorem wsStep_S_start {sortFn s e} (h : s.st = St.S) (hk : e.kind = Kind.start) :
-    wsStep sortFn s e = .ok (addEv { s with st := St.U } s.done.length e) := by
+    wsStep sortFn s e = .ok (addEv { s with st := St.U, opn := s.done.length } s.done.length e) := by
   simp [wsStep, h, hk, addEv]
 
 theorem wsStep_S_other {sortFn s e} (h : s.st = St.S) (hk : e.kind ≠ Kind.start) :
@@ -207,7 +303,7 @@ theorem wsStep_X_other {sortFn s e} (h : s.st = St.X) (hk : e.kind ≠ Kind.stop
 
 theorem wsStep_X_stop {sortFn s e} (h : s.st = St.X) (hk : e.kind = Kind.stop) :
     wsStep sortFn s e =
-      match executeSortPlan sortFn s.done s.ring s.bad0 with
+      match executeSortPlan sortFn s.done s.ring s.opn s.bad0 with
       | (Status.ok, buf', r', p) => .ok (addEv (sortedState s buf' r' p) s.done.length e)
       | (st, buf', _, p) => .error (st, buf', s.plans ++ p.toList) := by
   simp only [wsStep, h, hk, addEv, sortedState]
@@ -228,21 +324,24 @@ theorem Inv.add {n s pre e k} (hn : 0 < n) (hk : k = s.done.length)
   exact ringAdd_inv hn hr
 
 theorem wsLoop_main {sortFn : List Ev → List Ev} (hf : IsSort sortFn) {n : Nat} (hn : 0 < n) :
-    ∀ (rest : List Ev) (s : WS) (pre : List Ev) (mx : Nat) (p : List Ev) (m : Nat),
+    ∀ (rest : List Ev) (s : WS) (pre : List Ev) (mx : Nat) (p : List Ev) (m : Nat) (ip : Bool) (last : Nat),
       Inv n s pre →
       (∀ x ∈ pre, x.clock ≤ mx) →
       (∀ x ∈ pre ++ rest, x.clock < 2 ^ 63) →
       regionsOk s.st mx rest = true →
       p.Perm pre →
       (s.st = St.X → m = regionMin s.done s.bad0) →
-      (windowOk n s.st p m rest = true →
+      last = endClock 0 s.done →
+      (s.st = St.U → s.opn + 1 = s.done.length) →
+      (s.st = St.X → s.opn + 1 = s.bad0 ∧ ip = regionInPlace s.done s.opn) →
+      (windowOk n s.st p m ip last rest = true →
         (wsLoop sortFn false s rest).status = Status.ok ∧ Sorted (wsLoop sortFn false s rest).out ∧
           (wsLoop sortFn false s rest).out.Perm (pre ++ rest)) ∧
-      (windowOk n s.st p m rest = false → (wsLoop sortFn false s rest).status = Status.errNoDest) := by
+      (windowOk n s.st p m ip last rest = false → (wsLoop sortFn false s rest).status = Status.errNoDest) := by
   intro rest
   induction rest with
   | nil =>
-    intro s pre mx p m hinv hmx hclk hreg hp hm
+    intro s pre mx p m ip last hinv hmx hclk hreg hp hm _ _ _
     have hst : s.st = St.S := by
       unfold regionsOk at hreg
       simpa using hreg
@@ -252,7 +351,7 @@ theorem wsLoop_main {sortFn : List Ev → List Ev} (hf : IsSort sortFn) {n : Nat
     refine ⟨fun _ => ⟨by simp, hsrt, hinv.perm⟩, fun h => ?_⟩
     unfold windowOk at h; cases h
   | cons e rest ih =>
-    intro s pre mx p m hinv hmx hclk hreg hp hm
+    intro s pre mx p m ip last hinv hmx hclk hreg hp hm hlast hU hX
     have hassoc : pre ++ e :: rest = (pre ++ [e]) ++ rest := by simp
     have hmx' : ∀ x ∈ pre ++ [e], x.clock ≤ max mx e.clock := by
       intro x hx
@@ -262,6 +361,7 @@ theorem wsLoop_main {sortFn : List Ev → List Ev} (hf : IsSort sortFn) {n : Nat
     have hclk' : ∀ x ∈ (pre ++ [e]) ++ rest, x.clock < 2 ^ 63 := by rw [← hassoc]; exact hclk
     have hdone_le : ∀ x ∈ s.done, x.clock ≤ mx := fun x hx => hmx x (hinv.perm.mem_iff.1 hx)
     have hp' : (e :: p).Perm (pre ++ [e]) := perm_cons_snoc e hp
+    have hlast' : ∀ d : List Ev, e.clock = endClock 0 (d ++ [e]) := fun d => (endClock_snoc 0 d e).symm
     have hsrtv := hinv.srt
     rw [hassoc]
     cases hst : s.st with
@@ -271,21 +371,25 @@ theorem wsLoop_main {sortFn : List Ev → List Ev} (hf : IsSort sortFn) {n : Nat
       have hsn : Sorted (s.done ++ [e]) := hsrtv.snoc (fun x hx => by have := hdone_le x hx; omega)
       by_cases hk : e.kind = Kind.start
       · have hstep := @wsStep_S_start sortFn s e hst hk
-        have hinv' : Inv n (addEv { s with st := St.U } s.done.length e) (pre ++ [e]) :=
-          Inv.add (s := { s with st := St.U }) hn rfl hinv.ring hinv.perm hsn
-        have := ih _ (pre ++ [e]) (max mx e.clock) (e :: p) 0 hinv' hmx' hclk'
-          (by simpa [addEv, hk] using hreg.2) hp' (by intro h; cases h)
+        have hinv' : Inv n (addEv { s with st := St.U, opn := s.done.length } s.done.length e) (pre ++ [e]) :=
+          Inv.add (s := { s with st := St.U, opn := s.done.length }) hn rfl hinv.ring hinv.perm hsn
+        have := ih _ (pre ++ [e]) (max mx e.clock) (e :: p) 0 true e.clock hinv' hmx' hclk'
+          (by simpa [addEv, hk] using hreg.2) hp' (by intro h; cases h) (hlast' _)
+          (by intro _; show s.done.length + 1 = (s.done ++ [e]).length; simp)
+          (by intro h; cases h)
         simp only [wsLoop, hstep, windowOk, hk, if_true]
         exact this
       · have hstep := @wsStep_S_other sortFn s e hst hk
         have hinv' : Inv n (addEv s s.done.length e) (pre ++ [e]) := by
           apply Inv.add hn rfl hinv.ring hinv.perm; rw [hst]; exact hsn
-        have := ih _ (pre ++ [e]) (max mx e.clock) (e :: p) 0 hinv' hmx' hclk'
-          (by simpa [addEv, hk, hst] using hreg.2) hp' (by intro h; simp [addEv, hst] at h)
+        have := ih _ (pre ++ [e]) (max mx e.clock) (e :: p) 0 true e.clock hinv' hmx' hclk'
+          (by simpa [addEv, hk, hst] using hreg.2) hp' (by intro h; simp [addEv, hst] at h) (hlast' _)
+          (by intro h; simp [addEv, hst] at h) (by intro h; simp [addEv, hst] at h)
         simp only [wsLoop, hstep, windowOk, hk, if_false]
         simpa [addEv, hst] using this
     | U =>
       rw [hst] at hreg hsrtv
+      have hopn := hU hst
       by_cases hk : e.kind = Kind.stop
       · simp only [regionsOk, hk, if_true, Bool.and_eq_true, decide_eq_true_eq] at hreg
         have hsn : Sorted (s.done ++ [e]) := hsrtv.snoc (fun x hx => by have := hdone_le x hx; omega)
@@ -294,8 +398,9 @@ theorem wsLoop_main {sortFn : List Ev → List Ev} (hf : IsSort sortFn) {n : Nat
             (pre ++ [e]) :=
           Inv.add (s := { s with st := St.S, emptyRegions := s.emptyRegions + 1 }) hn rfl
             hinv.ring hinv.perm hsn
-        have := ih _ (pre ++ [e]) (max mx e.clock) (e :: p) 0 hinv' hmx' hclk'
-          (by simpa [addEv] using hreg.2) hp' (by intro h; cases h)
+        have := ih _ (pre ++ [e]) (max mx e.clock) (e :: p) 0 true e.clock hinv' hmx' hclk'
+          (by simpa [addEv] using hreg.2) hp' (by intro h; cases h) (hlast' _)
+          (by intro h; cases h) (by intro h; cases h)
         simp only [wsLoop, hstep, windowOk, hk, if_true]
         exact this
       · simp only [regionsOk, hk, if_false] at hreg
@@ -306,17 +411,41 @@ theorem wsLoop_main {sortFn : List Ev → List Ev} (hf : IsSort sortFn) {n : Nat
               show s.done.length < (s.done ++ [e]).length ∧ Sorted ((s.done ++ [e]).take s.done.length)
               rw [List.take_left' rfl, List.length_append]
               exact ⟨by simp, hsrtv⟩)
-        have := ih _ (pre ++ [e]) (max mx e.clock) (e :: p) e.clock hinv' hmx' hclk'
-          (by simpa [addEv] using hreg) hp'
+        have hipe : decide (last ≤ e.clock) = regionInPlace (s.done ++ [e]) s.opn := by
+          rw [regionInPlace_snoc e (by omega), regionInPlace_single hopn, Bool.true_and, hlast]
+        have := ih _ (pre ++ [e]) (max mx e.clock) (e :: p) e.clock (decide (last ≤ e.clock)) e.clock
+          hinv' hmx' hclk' (by simpa [addEv] using hreg) hp'
           (by intro _; show e.clock = regionMin (s.done ++ [e]) s.done.length; rw [regionMin_start])
+          (hlast' _) (by intro h; cases h) (by intro _; exact ⟨hopn, hipe⟩)
         simp only [wsLoop, hstep, windowOk, hk, if_false]
         exact this
     | X =>
       rw [hst] at hreg hsrtv
       have hmeq : m = regionMin s.done s.bad0 := hm hst
+      obtain ⟨hopn, hip⟩ := hX hst
       by_cases hk : e.kind = Kind.stop
       · simp only [regionsOk, hk, if_true, Bool.and_eq_true, decide_eq_true_eq] at hreg
         have hstep := @wsStep_X_stop sortFn s e hst hk
+        cases hipv : ip with
+        | true =>
+          -- region already in place: execute_sort_plan returns at once
+          rw [hipv] at hip
+          rw [exec_inPlace hip.symm] at hstep
+          simp only at hstep
+          have hsd : Sorted s.done :=
+            sorted_of_inPlace (by omega) (by rw [hopn]; exact hsrtv.2) hip.symm
+          have hinv' : Inv n (addEv (sortedState s s.done s.ring none) s.done.length e) (pre ++ [e]) := by
+            refine Inv.add (s := sortedState s s.done s.ring none) hn rfl hinv.ring hinv.perm ?_
+            show Sorted (s.done ++ [e])
+            exact hsd.snoc (fun x hx => by have := hdone_le x hx; omega)
+          have := ih _ (pre ++ [e]) (max mx e.clock) (e :: p) 0 true e.clock hinv' hmx' hclk'
+            (by simpa [addEv, sortedState] using hreg.2) hp' (by intro h; cases h) (hlast' _)
+            (by intro h; cases h) (by intro h; cases h)
+          simp only [wsLoop, hstep, windowOk, hk, if_true, Bool.true_or, Bool.true_and]
+          exact this
+        | false =>
+        rw [hipv] at hip
+        rw [exec_notInPlace hip.symm] at hstep
         have hlenf : ∀ l, (sortFn l).length = l.length := fun l => (hf l).1.length_eq
         have hexec := exec_eq sortFn s.done s.bad0 hn hinv.ring (by omega) hlenf
         have hdclk : ∀ x ∈ s.done, x.clock < 2 ^ 63 := fun x hx =>
@@ -324,7 +453,7 @@ theorem wsLoop_main {sortFn : List Ev → List Ev} (hf : IsSort sortFn) {n : Nat
         have hspec := execAbs_spec hf hn hsrtv.1 hsrtv.2 hdclk
         have hwp : windowOkAt n m p = windowOkAt n (regionMin s.done s.bad0) s.done := by
           rw [hmeq]; exact windowOkAt_perm (hp.trans hinv.perm.symm)
-        simp only [windowOk, hk, if_true, hwp]
+        simp only [windowOk, hk, if_true, hwp, Bool.false_or]
         cases hw : windowOkAt n (regionMin s.done s.bad0) s.done with
         | true =>
           obtain ⟨first, hex, hsb⟩ := hspec.1 hw
@@ -342,8 +471,9 @@ theorem wsLoop_main {sortFn : List Ev → List Ev} (hf : IsSort sortFn) {n : Nat
               rw [hpermb.length_eq]; exact hinv.ring
             · show Sorted ((s.done.take first ++ sortFn (s.done.drop first)) ++ [e])
               exact hsb.snoc (fun x hx => by have := hdone_le x (hpermb.mem_iff.1 hx); omega)
-          have := ih _ (pre ++ [e]) (max mx e.clock) (e :: p) 0 hinv' hmx' hclk'
-            (by simpa [addEv, sortedState] using hreg.2) hp' (by intro h; cases h)
+          have := ih _ (pre ++ [e]) (max mx e.clock) (e :: p) 0 true e.clock hinv' hmx' hclk'
+            (by simpa [addEv, sortedState] using hreg.2) hp' (by intro h; cases h) (hlast' _)
+            (by intro h; cases h) (by intro h; cases h)
           simp only [wsLoop, hstep, Bool.true_and]
           exact this
         | false =>
@@ -360,10 +490,13 @@ theorem wsLoop_main {sortFn : List Ev → List Ev} (hf : IsSort sortFn) {n : Nat
           rw [hst]
           rw [List.take_append_of_le_length (by omega), List.length_append]
           exact ⟨by omega, hsrtv.2⟩
-        have := ih _ (pre ++ [e]) (max mx e.clock) (e :: p) (min m e.clock) hinv' hmx' hclk'
-          (by simpa [addEv, hst] using hreg) hp'
+        have hipe : (ip && decide (last ≤ e.clock)) = regionInPlace (s.done ++ [e]) s.opn := by
+          rw [regionInPlace_snoc e (by omega), ← hip, hlast]
+        have := ih _ (pre ++ [e]) (max mx e.clock) (e :: p) (min m e.clock) (ip && decide (last ≤ e.clock))
+          e.clock hinv' hmx' hclk' (by simpa [addEv, hst] using hreg) hp'
           (by intro _; show min m e.clock = regionMin (s.done ++ [e]) s.bad0
               rw [regionMin_snoc hsrtv.1, hmeq])
+          (hlast' _) (by intro h; simp [addEv, hst] at h) (by intro _; exact ⟨hopn, hipe⟩)
         simp only [wsLoop, hstep, windowOk, hk, if_false]
         simpa [addEv, hst] using this
 
